@@ -29,7 +29,7 @@ RULE = ("(1) stamps: random histories of record_run_started/record_run_stopped(o
 TRUSTED_BASE = [
     "Coq 8.16.1 kernel (vm_compute in Examples, in two refutation witnesses and in the correspondence evaluation)",
     "Print Assumptions: Closed under the global context for every C03 theorem",
-    "translator/gen_fresh.py (statement/condition tables per function, SQL boolean parser, skeleton comparison)",
+    "translator/gen_fresh.py (statement/condition tables per function incl. _flag_inputs_not_final, SQL boolean parser, skeleton comparison; execute_job accepted in two reviewed shapes, which one is a generated fact)",
     "harness/c03_driver.py (script interpreter, row observation, hash-code abstraction of FileHash equality)",
     "the composition order in model/Fresh.v (do_try/do_amend/do_end), validated by correspondence (2)",
 ]
@@ -40,6 +40,7 @@ ASSUMPTIONS = [
     "build_completed is only called while no command runs (its documented precondition)",
     "a post-hoc amended static file that is confirmed for the first time during the command cannot be checked "
     "for the part of the window before its confirmation",
+    "(since fix a02f82b the former hypothesis db_stable is enforced by Executor._flag_inputs_not_final and proved)",
 ]
 
 from .p_c03_sigs import SIG_OTHER, SIG_RECONF, SIG_RERUN
@@ -524,6 +525,13 @@ WITNESS_RECONF = {
               "during": [["write", "f01.txt", 9], ["withdraw"], ["redeclare", "f01.txt"], ["confirm", "f01.txt"]],
               "rc": 0, "write_out": True}],
 }
+WITNESS_RERUN_AMENDED = {
+    "files": {"f01.txt": "conf", "f02.txt": "built"},
+    "initial": ["f01.txt"], "static_owner": {}, "cap": 2, "keep_going": False,
+    "runs": [{"before": [["tick", 1]],
+              "during": [["amend", ["f02.txt"]], ["pstart", "f02.txt"], ["tick", 2], ["pfinish", "f02.txt", True, 7]],
+              "rc": 0, "write_out": True}],
+}
 WITNESS_CHANGED = {
     "files": {"f01.txt": "conf", "f02.txt": "built"},
     "initial": ["f01.txt", "f02.txt"], "static_owner": {}, "cap": 2, "keep_going": True,
@@ -549,12 +557,23 @@ def report(ctx, fails):
 
 def fixed_witnesses(ctx):
     """Replay of the Coq witnesses (props/C03.v *_refuted) and of basic expectations."""
-    specs = [WITNESS_RERUN, WITNESS_RECONF, WITNESS_CHANGED, WITNESS_UNFRESH]
+    specs = [WITNESS_RERUN, WITNESS_RECONF, WITNESS_RERUN_AMENDED, WITNESS_CHANGED, WITNESS_UNFRESH]
     checks, descr, fails = run_consumer_cases(ctx, len(specs), specs=specs)
     bad = common.run_cases(ctx, "witness", HEADER, checks, chunk=40)
     for i in bad:
         ctx.add_failure("correspondence", "consumer-witness", "corr:consumer:model-vs-implementation",
                         "model and implementation disagree on a fixed witness", witness={"spec": descr[i]})
+    # regressions of D19 (fixed by a02f82b): the consumer must be sent back to PENDING, not deferred
+    from .c03_driver import run_case
+    for spec, sig in ((WITNESS_RERUN, SIG_RERUN), (WITNESS_RECONF, SIG_RECONF), (WITNESS_RERUN_AMENDED, SIG_RERUN)):
+        case = asyncio.run(asyncio.wait_for(run_case(spec), 120))
+        r = case.runs[0]
+        ctx.case(("regression", sig), nontrivial=True)
+        if not r.get("started") or r["state"] != S_PENDING or r["deferred"] or r["draining"]:
+            fails.append((sig, f"regression of D19: after the input was re-recorded during the command the consumer "
+                               f"must end PENDING (not deferred, no drain); observed state={r.get('state')} "
+                               f"deferred={r.get('deferred')} draining={r.get('draining')}",
+                          {"spec": spec, "evidence": {k: v for k, v in r.items() if k not in ("amend_verdicts",)}}))
     return fails
 
 
